@@ -4,7 +4,7 @@ live /repo on every run, so these `decide +kernel` proofs are re-checked against
 says now).  `decide +kernel` evaluates the decision procedure inside the kernel: no axioms.
 -/
 import EPV.Gen.C13Tables
-import EPV.Lemmas.USet
+import EPV.Lemmas.USetUnmerge
 namespace EPV.C13
 open EPV.USet EPV.Gen.C13
 
@@ -30,6 +30,23 @@ theorem blocks_flat_winv : WInv (blocks.map (·.2)).flatten := by decide +kernel
 theorem blocks_pairwise_disjoint :
     (blocks.map (·.2)).Pairwise (fun p q => ∀ x, ¬ (memL x p ∧ memL x q)) :=
   winv_flatten_pairwise _ blocks_flat_winv
+
+/-- kernel-evaluated certificate checks, for every major category `(M, flat, subcategories)`:
+`flat` is an interleaving of the subcategory tables, it is sorted/disjoint, and merging its
+touching entries gives literally the major table -/
+theorem majors_check : ∀ p ∈ majors,
+    unmerge p.2.1 p.2.2 = true ∧ WInv p.2.1 ∧ coalesce p.2.1 = p.1 := by decide +kernel
+
+/-- **each major category is the union of its subcategories**, for every code point -/
+theorem major_is_union (p : List CP × List CP × List (List CP)) (hp : p ∈ majors) (x : Nat) :
+    memL x p.1 ↔ ∃ m ∈ p.2.2, memL x m := by
+  obtain ⟨h1, h2, h3⟩ := majors_check p hp
+  rw [← h3, coalesce_mem _ h2 x, unmerge_spec _ _ h1 x]
+
+/-- **the subcategories of a major category are pairwise disjoint** (their interleaving is sorted
+and non-overlapping, so no code point lies in two entries) -/
+theorem subcats_flat_disjoint (p : List CP × List CP × List (List CP)) (hp : p ∈ majors) :
+    WInv p.2.1 := (majors_check p hp).2.1
 
 /-- non-vacuity: the tables are not empty -/
 example : implTables.length = 37 ∧ 300 < blocks.length := by decide +kernel
